@@ -234,7 +234,7 @@ func (x *Exec) call(in ssa.Instruction, c *ssa.CallCommon, res ssa.Value) {
 		} else {
 			// unknown callee: havoc everything
 			e.note("%s: call to %s has no contract: all state havoced", x.name, key)
-			x.havocAll()
+			x.havocAll(passedRefs(args)...)
 		}
 	} else {
 		cenv := &Env{x: x, st: x.st, old: x.st, binders: binders, bound: map[string]Val{}, closed: true}
@@ -251,6 +251,7 @@ func (x *Exec) call(in ssa.Instruction, c *ssa.CallCommon, res ssa.Value) {
 			x.oblige("pre", fmt.Sprintf("%s.%s", shortCallee(key), cl.Label), tags, len(tags) == 0, t, cl.Src, cl.Where+" @call "+x.pos(c.Pos()))
 			e.assume(x.guard, t)
 		}
+		x.curPassed = passedRefs(args)
 		x.applyAssigns(fc, binders, pre, c)
 	}
 	// results
@@ -376,6 +377,29 @@ func mentionsLocalGhost(ex SExpr, fc *FuncContract) bool {
 	return found
 }
 
+// passedRefs: references handed to a callee (pointer, slice, interface and
+// func arguments); a callee that may modify everything may modify what they
+// point to, even when the caller allocated it.
+func passedRefs(args []Val) []string {
+	var out []string
+	for _, a := range args {
+		switch a.Sort {
+		case "Int":
+			if a.GT != nil {
+				switch a.GT.Underlying().(type) {
+				case *types.Pointer, *types.Map, *types.Chan, *types.Signature:
+					out = append(out, a.T)
+				}
+			}
+		case "Slice":
+			out = append(out, fmt.Sprintf("(sref %s)", a.T))
+		case "Iface":
+			out = append(out, fmt.Sprintf("(ival %s)", a.T))
+		}
+	}
+	return out
+}
+
 func shortCallee(key string) string {
 	if i := strings.LastIndex(key, "/"); i >= 0 {
 		key = key[i+1:]
@@ -383,7 +407,7 @@ func shortCallee(key string) string {
 	return sanitize(key)
 }
 
-func (x *Exec) havocAll() {
+func (x *Exec) havocAll(passed ...string) {
 	e := x.enc
 	ob := e.heapGet(x.st, "brk")
 	epochCounter++
@@ -404,6 +428,9 @@ func (x *Exec) havocAll() {
 			// out of the callee's reach unless passed to it
 			nw := e.heapHavoc(x.st, k)
 			local := fmt.Sprintf("(and (>= r %s) (< r %s))", x.brk0, ob)
+			for _, p := range passed {
+				local = fmt.Sprintf("(and %s (not (= r %s)))", local, p)
+			}
 			if x.fn != nil {
 				for _, fv := range x.fn.FreeVars {
 					if v, ok := x.vals[fv]; ok && v.T != "" {
@@ -442,7 +469,7 @@ func (x *Exec) applyAssigns(fc *FuncContract, binders map[string]Val, pre *State
 				k := x.assignKey(pk).key
 				keep[k] = e.heapGet(pre, k)
 			}
-			x.havocAll()
+			x.havocAll(x.curPassed...)
 			for k, v := range keep {
 				x.st.H[k] = v
 			}
